@@ -17,8 +17,9 @@ class ColumnControlConstructionTokenTranslator(AbstractTranslator):
             # the reference is resolved like any other: a sheet that does not exist or an impossible column is rejected
             return str(excel.fill_cell(token.cell.cell).column + 1)
         elif token.matrix:
-            # Mutates matrix, inplace literal cols with digital
-            MatrixOfCellIdentifiersTokenTranslator.translate(token.matrix, excel, context)
+            # Only the position of the area is needed: its corners are resolved (letters to numbers, the sheet must exist), its cells are
+            # not translated - the formula's own cell may lie inside the area (B1 = COLUMN(A1:C1) is no circular reference)
+            excel.get_matrix(*token.matrix.matrix)
 
             # A cell holds one value: the number of the first column of the area. The cells beside the formula keep their own content.
             return str(token.matrix.matrix[0].column + 1)
